@@ -7,6 +7,15 @@ generated Float kernels) is compared with the real classes after every step (spi
 voltage / refrac / adaptations to 1e-9 relative).
 Search: the real trajectories are judged against an independent statement of the contract
 (documented update equation, threshold rule, reset, refractory window, refrac >= 0, spike attribute).
+The contract is a one-step oracle over the COMPLETE state (voltage, remaining refractory time, adaptations):
+from the real state before a step the documented equations give the state after it — including the voltage of
+an unlocked refractory neuron (integrates with its input masked), the refractory countdown, and the adaptation
+update with its refractory freeze; a deviation there is followed by a free run of the documented dynamics to
+name the first spike it displaces.  Input streams: pre-drawn (zero / huge / negative / near-threshold) and
+STATE-AWARE adversarial drives computed from the neuron's state at run time (land the integrated voltage at a
+chosen fraction of the way to the current threshold from either side; oppose the intrinsic drive by a chosen
+factor, however large that drive is), plus exponential neurons with a sharp upswing and a threshold far above
+the rheobase voltage.
 """
 from __future__ import annotations
 
@@ -42,7 +51,7 @@ KINDS = ["LIF", "ALIF", "GLIF1", "GLIF2", "QIF", "Izhikevich", "EIF", "AdEx"]
 ADAPTIVE = {"ALIF", "GLIF2", "Izhikevich", "AdEx"}
 
 
-def make_cfg(rng, kind, refrac_choice=None):
+def make_cfg(rng, kind, refrac_choice=None, upswing=False):
     dt = rng.choice([0.25, 0.5, 1.0, 2.0])
     rest = rng.choice([-70.0, -65.0, -60.0])
     thresh = rng.choice([-50.0, -52.0, -45.0])
@@ -58,6 +67,12 @@ def make_cfg(rng, kind, refrac_choice=None):
     if kind in ("EIF", "AdEx"):
         cfg["a"] = rng.choice([-55.0, -53.0])            # rheobase_v
         cfg["b"] = rng.choice([1.0, 2.0, 0.5])           # sharpness
+        if upswing:
+            # sharp upswing, threshold far above the rheobase voltage: (thresh - rheobase) / sharpness in 25 .. 300
+            cfg["a"] = rng.choice([-55.0, -50.0])
+            cfg["b"] = rng.choice([0.5, 0.25, 1.0])
+            cfg["thresh"] = rng.choice([-25.0, -30.0, -20.0, 0.0, 20.0])
+            cfg["upswing"] = True
     if kind == "GLIF2":
         cfg["slope"] = rng.choice([0.25, 0.5, 0.125])
         cfg["icpt"] = rng.choice([2.0, 4.0, 1.0])
@@ -147,6 +162,45 @@ def gen_inputs(rng, cfg, T, n):
     return out
 
 
+LAND = [0.25, 0.5, 0.75, 0.9, 0.99, 1.01, 1.1, 2.0, -1.0]
+OPPOSE = [1e-6, 1e-4, 1e-2, 0.5, 0.9, 1.1, 2.0, 100.0]
+
+
+def aware_input(rng, c, v, ad, plain):
+    """state-aware adversarial drive for one element whose voltage is v and adaptations are ad (real state before the
+    step).  The documented integrated voltage is affine in the input, vint = vint0 + g * I_eff, so the input is
+    either chosen to LAND vint a fraction lam of the way from v to the current threshold (lam < 1 just below,
+    lam > 1 just above, lam < 0 away from it), or to OPPOSE the intrinsic drive (vint0 - v) / g by a factor k —
+    which is a huge negative current when the neuron is deep in a regenerative upswing.  Landing is used only while
+    it is well conditioned (the intrinsic change does not dwarf the distance to the threshold), and k stays away
+    from 1, so that the outcome never hangs on the cancellation of two huge terms."""
+    kind = c["kind"]
+    if not math.isfinite(v):
+        return plain
+    thr = c["thresh"] + (sum(ad) if kind in ("ALIF", "GLIF2") else 0.0)
+    off = sum(ad) if kind in ("Izhikevich", "AdEx") else 0.0
+    vint0 = spec_integrate(c, v, 0.0)
+    if not math.isfinite(vint0) or not math.isfinite(thr) or not math.isfinite(off):
+        return plain
+    if kind in ("LIF", "ALIF", "GLIF1", "GLIF2"):
+        g = c["R"] * (1.0 - math.exp(-c["dt"] / c["tau"]))
+    else:
+        g = c["dt"] / c["tau"] * c["R"]
+    gapv = thr - v
+    well = abs(vint0 - v) <= 1e3 * (abs(gapv) + 1.0)
+    if well and rng.random() < 0.55:
+        ieff = (v + rng.choice(LAND) * gapv - vint0) / g
+    else:
+        drive = (vint0 - v) / g
+        if abs(drive) < 1.0:
+            return plain
+        ieff = -rng.choice(OPPOSE) * drive
+    if sum(abs(w) for w in ad) > 1e4 * (abs(ieff) + 1.0):
+        return plain        # the effective input would be the difference of two huge numbers (input and adaptation currents)
+    x = ieff + off
+    return float(x) if math.isfinite(x) else plain
+
+
 def approx(a, b, tol=1e-9):
     if a == b:
         return True
@@ -172,6 +226,16 @@ def spec_integrate(c, v, I):
     return v + c["dt"] / c["tau"] * (-(v - c["rest"]) + e + c["R"] * I)
 
 
+def raised(ex, exc, cfg, lock, adapt, shape, batch, clear_at, inputs, via_dt_setter, where, poke_at=None, poke_vals=None):
+    """the real code raised on a run inside the property's quantifier: a failing input (element 0's inputs are recorded)"""
+    if len([f for f in ex.findings if f.key == "C03:exception"]) < 3:
+        ex.findings.append(Finding("spec", "C03:exception", f"{type(exc).__name__} at {where}: {str(exc)[:300]}",
+                                   {"class": cfg["kind"], "cfg": cfg, "lock": lock, "adapt": adapt, "shape": list(shape), "batch": batch,
+                                    "element": 0, "inputs": [row[0] for row in inputs], "clear_at": clear_at,
+                                    "configured_through_dt_setter": via_dt_setter, "adaptation_replaced_at": poke_at,
+                                    "adaptation_replaced_by": (poke_vals[0] if poke_vals else None), "raised": where}))
+
+
 def explore(ctx) -> Exploration:
     torch.set_default_dtype(torch.float64)
     ex = Exploration()
@@ -183,24 +247,32 @@ def explore(ctx) -> Exploration:
     lines, plan = [], []
     for kind in KINDS:
         for ci in range(ncase):
-            cfg = make_cfg(rng, kind, refrac_choice=[0.0, 0.5, 1.0, 2.5, 0.25, 0.125][ci] if ci < 6 else None)
+            upswing = kind in ("EIF", "AdEx") and ci % 4 == 3
+            cfg = make_cfg(rng, kind, refrac_choice=[0.0, 0.5, 1.0, 2.5, 0.25, 0.125][ci] if ci < 6 else None, upswing=upswing)
             lock = rng.random() < 0.7
             adapt = kind in ADAPTIVE and rng.random() < 0.7
             shape = rng.choice([(3,), (2, 2), (1,), (2, 3)])
             batch = 1 if (kind in ADAPTIVE and adapt) else rng.choice([1, 2, 3])
             n = batch * math.prod(shape)
             inputs = gen_inputs(rng, cfg, T, n)
+            # (iii) state-aware adversarial drives: from step 1 on a share of the pre-drawn inputs is replaced at run time by
+            #       inputs computed from the element's present state (see aware_input)
+            aware = 0.8 if upswing else (0.5 if rng.random() < 0.5 else 0.0)
             clear_at = rng.randrange(T) if rng.random() < 0.3 else None
             # (i) the step time assigned AFTER construction (`neuron.dt = …`): everything derived from it must follow;
             #     the model is simply begun with the final configuration
             via_dt_setter = ci % 3 == 1
-            if via_dt_setter:
-                other = dict(cfg, dt=rng.choice([d for d in (0.25, 0.5, 1.0, 2.0) if d != cfg["dt"]]))
-                neuron = build(other, shape, batch)
-                neuron.dt = cfg["dt"]
-            else:
-                neuron = build(cfg, shape, batch)
-            neuron.train(adapt)
+            other = dict(cfg, dt=rng.choice([d for d in (0.25, 0.5, 1.0, 2.0) if d != cfg["dt"]])) if via_dt_setter else None
+            try:
+                if via_dt_setter:
+                    neuron = build(other, shape, batch)
+                    neuron.dt = cfg["dt"]
+                else:
+                    neuron = build(cfg, shape, batch)
+                neuron.train(adapt)
+            except Exception as exc:  # noqa: BLE001 — a documented configuration must construct
+                raised(ex, exc, cfg, lock, adapt, shape, batch, None, [], via_dt_setter, "construction")
+                continue
             # (ii) the adaptation state replaced from outside between two steps (checkpoint restore / in-place edit)
             poke_at, poke_vals = None, None
             if kind in ADAPTIVE and batch == 1 and rng.random() < 0.5:
@@ -208,38 +280,51 @@ def explore(ctx) -> Exploration:
                 k = len(cfg["tcA"])
                 poke_vals = [[rng.choice([0.0, 4.0, 8.0, 20.0, -2.0]) for _ in range(k)] for _ in range(math.prod(shape))]
             traj = []   # per step: spikes, v, r, adapt, spike attr
+            adname = "threshold_adaptation" if kind in ("ALIF", "GLIF2") else ("current_adaptation" if kind in ADAPTIVE else None)
+            nsh = math.prod(shape)
+            failed = None
             with torch.no_grad():
                 for t in range(T):
-                    if clear_at == t:
-                        neuron.clear()
-                    if poke_at == t:
-                        name = "threshold_adaptation" if kind in ("ALIF", "GLIF2") else "current_adaptation"
-                        new = torch.tensor(poke_vals, dtype=torch.float64).reshape(getattr(neuron, name).shape)
-                        if t % 2 == 0:
-                            sd = neuron.state_dict()
-                            key = next(k_ for k_ in sd if "adaptation" in k_ and sd[k_].shape == new.shape)
-                            sd[key] = new
-                            neuron.load_state_dict(sd)
+                    try:
+                        if clear_at == t:
+                            neuron.clear()
+                        if poke_at == t:
+                            new = torch.tensor(poke_vals, dtype=torch.float64).reshape(getattr(neuron, adname).shape)
+                            if t % 2 == 0:
+                                sd = neuron.state_dict()
+                                key = next(k_ for k_ in sd if "adaptation" in k_ and sd[k_].shape == new.shape)
+                                sd[key] = new
+                                neuron.load_state_dict(sd)
+                            else:
+                                getattr(neuron, adname).copy_(new)
+                        if aware and t >= 1:
+                            vnow = neuron.voltage.reshape(-1).tolist()
+                            adnow = getattr(neuron, adname).reshape(nsh, -1).tolist() if adname else None
+                            for e in range(n):
+                                if rng.random() < aware:
+                                    inputs[t][e] = aware_input(rng, cfg, vnow[e], adnow[e % nsh] if adnow else [], inputs[t][e])
+                        x = torch.tensor(inputs[t]).reshape(batch, *shape)
+                        if kind in ADAPTIVE:
+                            s = neuron(x, adapt=adapt, refrac_lock=lock)
                         else:
-                            getattr(neuron, name).copy_(new)
-                    x = torch.tensor(inputs[t]).reshape(batch, *shape)
-                    if kind in ADAPTIVE:
-                        s = neuron(x, adapt=adapt, refrac_lock=lock)
-                    else:
-                        s = neuron(x, refrac_lock=lock)
-                    ad = None
-                    if kind in ("ALIF", "GLIF2"):
-                        ad = neuron.threshold_adaptation.clone()
-                    elif kind in ("Izhikevich", "AdEx"):
-                        ad = neuron.current_adaptation.clone()
-                    traj.append((s.clone().reshape(-1), neuron.voltage.clone().reshape(-1), neuron.refrac.clone().reshape(-1),
-                                 ad, neuron.spike.clone().reshape(-1)))
+                            s = neuron(x, refrac_lock=lock)
+                        ad = getattr(neuron, adname).clone() if adname else None
+                        traj.append((s.clone().reshape(-1), neuron.voltage.clone().reshape(-1), neuron.refrac.clone().reshape(-1),
+                                     ad, neuron.spike.clone().reshape(-1)))
+                    except Exception as exc:  # noqa: BLE001 — the specification has a value for every step of such a run
+                        failed = (t, exc)
+                        break
+            if failed is not None:
+                raised(ex, failed[1], cfg, lock, adapt, shape, batch, clear_at, inputs[:failed[0] + 1], via_dt_setter,
+                       f"step {failed[0]}", poke_at, poke_vals)
+                continue
             ex.count("class", kind)
             ex.count("refrac_t/dt", str(cfg["refracT"] / cfg["dt"]))
             ex.count("lock", str(lock))
             ex.count("adapt", str(adapt))
             ex.count("configured", "dt-setter" if via_dt_setter else "constructor")
             ex.count("adaptation-poked", str(poke_at is not None))
+            ex.count("inputs", "upswing+state-aware" if upswing else ("state-aware" if aware else "pre-drawn"))
             # model lines, per element
             for e in range(n):
                 first = len(lines)
@@ -297,6 +382,70 @@ def explore(ctx) -> Exploration:
     return ex
 
 
+def doc_adapt(c, lock, adapt, ad, v_after, spike, r_after):
+    """documented adaptation update of one element: every adaptation takes its exponential / Euler step unless the neuron
+    is in its absolute refractory period after this step (remaining time > 0) under locking, in which case it is
+    maintained; then the spike increment is added.  Without adaptation (adapt off) the state is carried unchanged."""
+    if not adapt:
+        return list(ad)
+    held = lock and r_after > 0
+    out = []
+    for k, w in enumerate(ad):
+        if held:
+            nw = w
+        elif c["kind"] in ("ALIF", "GLIF2"):
+            nw = w * math.exp(-c["dt"] / c["tcA"][k])
+        else:
+            nw = w + c["dt"] / c["tcA"][k] * (c["vcA"][k] * (v_after - c["rest"]) - w)
+        out.append(nw + (c["incA"][k] if spike else 0.0))
+    return out
+
+
+def doc_step(c, lock, adapt, v, r, ad, I):
+    """one step of the documented dynamics of one element from the complete state (v, r, ad)"""
+    kind = c["kind"]
+    r_dec = max(r - c["dt"], 0.0)
+    thr = c["thresh"] + (sum(ad) if kind in ("ALIF", "GLIF2") else 0.0)
+    decided = r_dec == 0
+    if decided:
+        vint = spec_integrate(c, v, I - (sum(ad) if kind in ("Izhikevich", "AdEx") else 0.0))
+        spike = vint >= thr
+    else:                                   # refractory: no spike; held under locking, else integrates with the input masked
+        vint = v if lock else spec_integrate(c, v, 0.0)
+        spike = False
+    if spike:
+        v2 = c["reset"] if kind != "GLIF2" else c["rest"] + c["slope"] * (vint - c["rest"]) - c["icpt"]
+        r2 = c["refracT"]
+    else:
+        v2, r2 = vint, r_dec
+    return dict(spike=spike, v=v2, r=r2, ad=doc_adapt(c, lock, adapt, ad, v2, spike, r2), vint=vint, thr=thr,
+                decided=decided, margin=abs(vint - thr))
+
+
+def displaced_spike(c, lock, adapt, e, inputs, clear_at, traj, poke_at, poke, t0, state):
+    """free run of the documented dynamics from the documented state after step t0 on the same inputs: the first later
+    step at which the real neuron's output differs from the documented one by a wide margin (None if there is none, or
+    if a documented decision comes too close to the threshold to be called)"""
+    v, r, ad = state
+    for t in range(t0 + 1, len(traj)):
+        if clear_at == t:
+            v, r = c["rest"], 0.0
+        if poke_at == t and poke is not None:
+            ad = list(poke)
+        d = doc_step(c, lock, adapt, v, r, ad, inputs[t][e])
+        if math.isnan(d["v"]) or math.isnan(d["thr"]):
+            return ""
+        if d["decided"] and d["margin"] <= 1e-3 * max(1.0, abs(d["thr"])):
+            return ""
+        sp = bool(traj[t][0][e])
+        if sp != d["spike"]:
+            return (f"; driven on with the same inputs, the documented dynamics {'spike' if d['spike'] else 'do not spike'} at step {t} "
+                    f"(integrated voltage {d['vint']}, threshold {d['thr']}, refractory={not d['decided']}) but the neuron "
+                    f"{'spiked' if sp else 'did not spike'}")
+        v, r, ad = d["v"], d["r"], d["ad"]
+    return ""
+
+
 def contract(c, lock, adapt, e, pidx, inputs, clear_at, traj, batch, poke_at=None, poke=None):
     """independent check of the property's clauses on one element's real trajectory"""
     out = []
@@ -305,6 +454,8 @@ def contract(c, lock, adapt, e, pidx, inputs, clear_at, traj, batch, poke_at=Non
     v_prev, r_prev = c["rest"], 0.0
     ad_prev = [0.0] * len(c["tcA"])
     last_spike = None
+    own_adapt = batch == 1 or kind not in ADAPTIVE or not adapt     # the adaptation state is this element's own
+    followed = False
     for t, (s, v, r, ad, attr) in enumerate(traj):
         if clear_at == t:
             v_prev, r_prev = c["rest"], 0.0
@@ -329,29 +480,62 @@ def contract(c, lock, adapt, e, pidx, inputs, clear_at, traj, batch, poke_at=Non
         r_dec = max(r_prev - dt, 0.0)
         thr = c["thresh"] + (sum(ad_prev) if kind in ("ALIF", "GLIF2") else 0.0)
         Ieff = I - (sum(ad_prev) if kind in ("Izhikevich", "AdEx") else 0.0)
-        if batch == 1 or kind not in ADAPTIVE or not adapt:
+        vint = None
+        state_dev = None                   # a deviation of the carried state (not of this step's output) found at this step
+        if own_adapt:
             if r_dec == 0:
                 vint = spec_integrate(c, v_prev, Ieff)
                 margin = abs(vint - thr)
                 exact = (margin == 0 and kind in ("QIF", "Izhikevich") and t == 0 and clear_at != 0)
-                if (margin > 1e-7 * max(1.0, abs(thr)) or exact) and not math.isnan(vint):
+                # size of the terms the integrated voltage is composed of: rounding is relative to these, not to the result
+                terms = max(abs(v_prev), abs(thr), c["R"] * (abs(I) + sum(abs(w) for w in ad_prev)) if kind in ("Izhikevich", "AdEx")
+                            else c["R"] * abs(I))
+                if ((margin > 1e-7 * max(1.0, abs(thr)) and margin > 1e-10 * terms) or exact) and not math.isnan(vint):
                     want = vint >= thr
                     if want != sp:
                         out.append(("C03:threshold-rule", f"step {t}: integrated voltage {vint} vs threshold {thr}: expected spike={want}, got {sp}", t))
-                    elif not sp and not approx(vv, vint, 1e-8):
+                    elif not sp and not approx(vv, vint, 1e-8) and abs(vv - vint) > 1e-12 * terms:
                         out.append(("C03:update-equation", f"step {t}: voltage {vv}, documented update gives {vint}", t))
             elif sp:
                 out.append(("C03:spike-while-refractory", f"spike at step {t} with remaining refractory time {r_dec}", t))
+        if r_dec > 0 and not sp and not lock:
+            # refractory without voltage locking: the voltage is not held, it follows the update equation with the input masked
+            vfree = spec_integrate(c, v_prev, 0.0)
+            if not math.isnan(vfree) and not approx(vv, vfree, 1e-8):
+                state_dev = ("C03:update-equation:refractory-unlocked",
+                             f"step {t}: refractory (remaining {r_dec}) with refrac_lock=False: voltage {v_prev} -> {vv}, the documented "
+                             f"update with the input masked gives {vfree}")
+        if not sp and not approx(rr, r_dec):
+            out.append(("C03:refrac-countdown", f"step {t}: remaining refractory time {r_prev} -> {rr} without a spike, expected {r_dec} (dt={dt})", t))
         if sp:
-            want_v = c["reset"] if kind != "GLIF2" else None
+            want_v = c["reset"]
+            if kind == "GLIF2":
+                want_v = c["rest"] + c["slope"] * (vint - c["rest"]) - c["icpt"] if (vint is not None and math.isfinite(vint)) else None
             if want_v is not None and not approx(vv, want_v):
                 out.append(("C03:reset-voltage", f"voltage after spike {vv}, documented reset {want_v}", t))
             if not approx(rr, rt):
                 out.append(("C03:reset-refrac", f"refractory time after spike {rr}, configured {rt}", t))
             last_spike = t
+        # adaptation state after the step, from the real state before it and this step's real output
+        ad_now = [float(x) for x in ad.reshape(-1, ad.shape[-1])[pidx]] if ad is not None else None
+        if ad_now is not None and own_adapt and state_dev is None:
+            ad_doc = doc_adapt(c, lock, adapt, ad_prev, vv, sp, rt if sp else r_dec)
+            if len(ad_doc) != len(ad_now) or not all(approx(x, y) for x, y in zip(ad_now, ad_doc)):
+                held = adapt and lock and (rt if sp else r_dec) > 0
+                state_dev = ("C03:adaptation-update",
+                             f"step {t}: adaptations {ad_prev} -> {ad_now}, documented {ad_doc} (adapt={adapt}, spike={sp}, voltage {vv}, "
+                             f"{'maintained: in the refractory period under locking' if held else 'stepped' if adapt else 'carried: adaptation off'})")
+        if state_dev is not None:
+            what = state_dev[1]
+            if not followed and own_adapt:
+                followed = True
+                d = doc_step(c, lock, adapt, v_prev, r_prev, ad_prev, I)
+                if not math.isnan(d["v"]):
+                    what += displaced_spike(c, lock, adapt, e, inputs, clear_at, traj, poke_at, poke, t, (d["v"], d["r"], d["ad"]))
+            out.append((state_dev[0], what, t))
         v_prev, r_prev = vv, rr
-        if ad is not None:
-            ad_prev = [float(x) for x in ad.reshape(-1, ad.shape[-1])[pidx]]
+        if ad_now is not None:
+            ad_prev = ad_now
     return out
 
 
